@@ -84,3 +84,110 @@ package parser
 //@   requires wfLex(l)
 //@   assigns l.pos, l.start, l.width, l.head, elems(l.tokens)
 //@   ensures wfLex(l) && l.start == l.pos && l.pos >= old(l.pos)
+
+// keyword token numbers index the keyword table
+//@ macro isTokType(t int) bool = token_ident <= t && t < token_ident + len(keywords)
+
+//@ func (l *lexer) keyword(ttype int) string
+//@   mode int
+//@   property C14
+//@   requires isTokType(ttype)
+//@   assigns nothing
+
+//@ func (l *lexer) acceptToken(ttype int) bool
+//@   mode int
+//@   property C14
+//@   requires wfLex(l) && isTokType(ttype)
+//@   assigns l.pos, l.start, l.width, l.head, elems(l.tokens)
+//@   ensures wfLex(l) && l.pos >= old(l.pos)
+
+//@ func (l *lexer) acceptRun(ttype int, valid string) bool
+//@   mode int
+//@   property C14
+//@   requires wfLex(l)
+//@   assigns l.pos, l.start, l.width, l.head, elems(l.tokens)
+//@   loop 1 invariant wfLex(l) && l.pos >= old(l.pos)
+//@   ensures wfLex(l) && l.pos >= old(l.pos)
+
+//@ func (l *lexer) acceptString() bool
+//@   mode int
+//@   property C14
+//@   requires wfLex(l)
+//@   assigns l.pos, l.start, l.width, l.head, elems(l.tokens)
+//@   loop 1 invariant wfLex(l) && l.pos >= old(l.pos)
+//@   loop 1 decreases len(l.input) - l.pos
+//@   ensures wfLex(l) && l.pos >= old(l.pos)
+
+//@ func (l *lexer) acceptNumber(ttype int) bool
+//@   mode int
+//@   property C14
+//@   requires wfLex(l)
+//@   assigns l.pos, l.start, l.width, l.head, elems(l.tokens)
+//@   loop 1 invariant wfLex(l) && l.pos >= old(l.pos) && 0 <= i && i <= l.pos
+//@   loop 1 decreases len(l.input) - l.pos
+//@   ensures wfLex(l) && l.pos >= old(l.pos)
+
+//@ func (l *lexer) acceptInteger(ttype int) bool
+//@   mode int
+//@   property C14
+//@   requires wfLex(l)
+//@   assigns l.pos, l.start, l.width, l.head, elems(l.tokens)
+//@   loop 1 invariant wfLex(l) && l.pos >= old(l.pos) && 0 <= i && i <= l.pos
+//@   loop 1 decreases len(l.input) - l.pos
+//@   ensures wfLex(l) && l.pos >= old(l.pos)
+
+//@ func (l *lexer) acceptToks(ttype int, rfunc runeTest, sfunc strTest) bool
+//@   mode int
+//@   property C14
+//@   requires wfLex(l) && rfunc != nil
+//@   assigns l.pos, l.start, l.width, l.head, elems(l.tokens)
+//@   loop 1 invariant wfLex(l) && l.pos >= old(l.pos)
+//@   ensures wfLex(l) && l.pos >= old(l.pos)
+
+//@ func (l *lexer) Position() (line, col int)
+//@   mode int
+//@   property C14
+//@   requires wfLex(l)
+//@   assigns nothing
+//@   loop 1 invariant 0 <= p && p <= l.pos && 0 <= line && line <= p && 0 <= col && col <= p
+//@   loop 1 decreases l.pos - p
+
+//@ func isPrefixedIdent(s string) bool
+//@   mode int
+//@   property C14
+//@   assigns nothing
+//@   loop 1 invariant 0 <= count && count <= 1
+
+// the nesting stack of definitions
+//@ macro wfStack(s *yangMetaStack) bool = s != nil && 0 <= s.count && s.count <= len(s.defs)
+//@ func (s *yangMetaStack) push(def interface{}) interface{}
+//@   mode int
+//@   property C14
+//@   requires wfStack(s)
+//@   ensures wfStack(s) && s.count == old(s.count) + 1 && result == def
+//@ func (s *yangMetaStack) pop() interface{}
+//@   mode int
+//@   property C14
+//@   requires wfStack(s) && s.count > 0
+//@   assigns s.count
+//@   ensures wfStack(s) && s.count == old(s.count) - 1
+//@ func (s *yangMetaStack) peek() interface{}
+//@   mode int
+//@   property C14
+//@   requires wfStack(s) && s.count > 0
+//@   assigns nothing
+//@ func (s *yangMetaStack) peekModule() *meta.Module
+//@   mode int
+//@   property C14
+//@   requires wfStack(s)
+//@   assigns nothing
+//@   loop 1 invariant -1 <= i && i < len(s.defs)
+//@   loop 1 decreases i + 1
+
+// quoted arguments
+//@ func tokenString(s string) string
+//@   mode int
+//@   property C14
+//@ func trimQuotes(s string) string
+//@   mode int
+//@   property C14
